@@ -647,7 +647,9 @@ impl RADAU {
                 let r = cont[i] / scal[i];
                 err += r * r;
             }
-            err = (err / n as Float).sqrt().max(1e-10);
+            err = (err / n as Float).sqrt();
+            // A NaN estimate must reject the step (Float::max would silently drop the NaN)
+            err = if err.is_nan() { Float::INFINITY } else { err.max(1e-10) };
 
             // Optional refinement on first/rejected step
             if err >= 1.0 && (first || reject) {
@@ -669,7 +671,8 @@ impl RADAU {
                     let r = cont[i] / scal[i];
                     err += r * r;
                 }
-                err = (err / n as Float).sqrt().max(1e-10);
+                err = (err / n as Float).sqrt();
+                err = if err.is_nan() { Float::INFINITY } else { err.max(1e-10) };
             }
 
             // --- Computation of hnew ---
